@@ -147,6 +147,7 @@ func runC03(c *Ctx) {
 	lineAlpha := []string{"p, alice, data1, read", "p, bob, data2, write, allow", "g, alice, admin", "g, admin, alice", "g, admin, root", "g, bob", "p, alice, data1",
 		"x, a, b", ", alice, data1, read", "p, \"a,b\", data1, read", "p, \"unbalanced, data1, read", "p, ba\"re, data1, read", "p, \"x\"y, data1, read",
 		"# comment", "", "   ", "p,alice,data1,read\r", "p, a\x00b, data1, read", ",,,", "p", "g, a, b, c, d", "p2, alice, data1", "\"p\", carol, data1, read", "p , dave, data1, read",
+		"\" \", bob, data2, write", "\"\t \", x, y, z",
 		"p, 1, alice, data1, read, allow", "p, 3, alice, data1, read, deny", "p, -1, bob, data1, read, deny", "p, alice, data1, read, deny"}
 	effects := []struct{ name, e string }{{"allow", effAllow}, {"deny", effDeny}, {"allow-and-deny", effAllowDen}, {"priority", effPriority}, {"subject", "subjectPriority(p_eft) || deny"}}
 	nTexts := 250
